@@ -144,7 +144,7 @@ var elemTypes = []string{"int", "string", "float", "slice", "any", "unit", "fstr
 // retype: run the generated case on another element type. For `unit` every value is rewritten to 0
 // (all values of struct{} are equal); for `any` value 5 (nil) stays, other values keep their class.
 func retype(r *core.Rand, c core.Case) core.Case {
-	if c.Tag == "large" || !r.Chance(35) {
+	if c.Tag == "large" || c.Tag == "misuse" || !r.Chance(35) {
 		return c
 	}
 	ty := elemTypes[1+r.Intn(len(elemTypes)-1)]
